@@ -424,6 +424,33 @@ class _Args:
         self.max_coverage = k
 
 
+def _sym_round(x, ndigits=None):
+    """Python's round() to an integer (ties to even) on a symbolic real / int"""
+    import z3
+    from vf.pysym.engine import SymReal, SymInt
+
+    if ndigits is not None:
+        raise RuntimeError("phase.py: round() with ndigits - extend the check")
+    if isinstance(x, SymInt) or isinstance(x, int):
+        return x
+    if not isinstance(x, SymReal):
+        return round(x)
+    q = z3.ToInt(x.e)  # floor
+    frac = x.e - z3.ToReal(q)
+    half = z3.RealVal("1/2")
+    return SymInt(z3.If(frac < half, q, z3.If(frac > half, q + 1, z3.If(q % 2 == 0, q, q + 1))))
+
+
+def _sym_trunc(x):
+    import z3
+    from vf.pysym.engine import SymReal, SymInt
+
+    if isinstance(x, SymReal):
+        q = z3.ToInt(x.e)
+        return SymInt(z3.If(z3.Or(x.e >= 0, z3.ToReal(q) == x.e), q, q + 1))
+    return x if isinstance(x, SymInt) else int(x)
+
+
 class Family(SubCheck):
     name = "family"
     encoded = ["whatshap.cli.phase.run_whatshap: expression for max_coverage_per_sample", "whatshap.cli.phase.validate: tests on args.max_coverage"]
@@ -444,7 +471,7 @@ class Family(SubCheck):
         expr, name = _find_cap_expr(tree)
         self.cap_src = ast.unparse(expr)
         self.cap_code = compile(ast.Expression(expr), "phase.py:max_coverage_per_sample", "eval")
-        self.free = sorted(set(n.id for n in ast.walk(expr) if isinstance(n, ast.Name)) - {"max", "min", "len", "int", "abs"})
+        self.free = sorted(set(n.id for n in ast.walk(expr) if isinstance(n, ast.Name)) - {"max", "min", "len", "int", "abs", "round"})
         tests = _find_validation(tree)
         if not tests:
             raise RuntimeError("phase.py: validation of args.max_coverage not found")
@@ -462,7 +489,7 @@ class Family(SubCheck):
 
     def _env(self, k, f):
         sh = self.shims
-        env = {"max": sh.sym_max, "min": sh.sym_min, "len": lambda x: x.n if isinstance(x, _Sized) else len(x), "__builtins__": {}}
+        env = {"max": sh.sym_max, "min": sh.sym_min, "len": lambda x: x.n if isinstance(x, _Sized) else len(x), "round": _sym_round, "int": _sym_trunc, "abs": abs, "__builtins__": {}}
         for name in self.free:
             if name == "max_coverage":
                 env[name] = k
